@@ -26,6 +26,7 @@ import (
 	"strings"
 	"time"
 
+	"tunnox-core/internal/protocol/session"
 	"tunnox-core/internal/protocol/session/crossnode"
 )
 
@@ -100,6 +101,10 @@ type caseIn struct {
 	Dribble  []int    `json:"dribble"`
 
 	Strs []string `json:"strs"` // tid mode: id strings (hex)
+
+	Req   string `json:"req"`   // fwd mode: request bytes (hex), response bytes (hex), application write sizes
+	Resp  string `json:"resp"`
+	Wsize []int  `json:"wsize"`
 }
 
 type decObs struct {
@@ -191,19 +196,33 @@ func decodeAll(wire []byte, cuts []int, out *caseOut, record bool) []decObs {
 		if before >= hdrSize {
 			hdrN = int64(binary.BigEndian.Uint32(r.data[17:21]))
 		}
+		snap := *r
 		runtime.ReadMemStats(&m1)
 		tid, ty, data, err := crossnode.ReadFrameFromReader(r)
 		runtime.ReadMemStats(&m2)
 		delta := m2.TotalAlloc - m1.TotalAlloc
-		if record && delta > out.MaxAllocDelta {
-			out.MaxAllocDelta = delta
-		}
 		consumed := before - len(r.data)
 		// allocation bound: header + payload (<= MaxFrameSize) + slack for size classes and error values;
 		// when the declared length exceeds the limit nothing but the header and the error may be allocated
 		bound := uint64(8192)
 		if hdrN >= 0 && hdrN <= maxFrame {
 			bound += uint64(hdrN) + uint64(hdrN)/4
+		}
+		// TotalAlloc is process wide: other goroutines (runtime, package-level background workers of the linked
+		// packages) may allocate during the window.  The decoder's own allocation is deterministic, so a reading
+		// above the bound is re-measured on a copy of the reader and the minimum is what counts.
+		for try := 0; try < 6 && delta > bound; try++ {
+			r2 := snap
+			runtime.Gosched()
+			runtime.ReadMemStats(&m1)
+			crossnode.ReadFrameFromReader(&r2)
+			runtime.ReadMemStats(&m2)
+			if d := m2.TotalAlloc - m1.TotalAlloc; d < delta {
+				delta = d
+			}
+		}
+		if record && delta > out.MaxAllocDelta {
+			out.MaxAllocDelta = delta
 		}
 		if delta > bound {
 			out.fail("decoder-allocation", "ReadFrameFromReader allocated %d bytes for a frame declaring length %d (bound %d, limit %d+%d) at offset %d",
@@ -326,7 +345,9 @@ func runDec(c *caseIn, out *caseOut) {
 
 var listener *net.TCPListener
 
-func tcpPair() (*net.TCPConn, *net.TCPConn) {
+func tcpPair() (*net.TCPConn, *net.TCPConn) { return tcpPairLinger(true) }
+
+func tcpPairLinger(rst bool) (*net.TCPConn, *net.TCPConn) {
 	if listener == nil {
 		l, err := net.ListenTCP("tcp", &net.TCPAddr{IP: net.IPv4(127, 0, 0, 1)})
 		hmust(err)
@@ -348,8 +369,10 @@ func tcpPair() (*net.TCPConn, *net.TCPConn) {
 	a.SetNoDelay(true)
 	// close with RST instead of FIN/TIME_WAIT: thousands of short-lived loopback connections per run must not
 	// exhaust the ephemeral port range (both ends are only closed after the reader has finished)
-	a.SetLinger(0)
-	r.c.SetLinger(0)
+	if rst {
+		a.SetLinger(0)
+		r.c.SetLinger(0)
+	}
 	return a, r.c
 }
 
@@ -745,6 +768,96 @@ func runConc(c *caseIn, out *caseOut) {
 	}
 }
 
+// runFwd: the real runBidirectionalForward on BOTH nodes, joined by real FrameStreams over a loopback TCP connection:
+//
+//	app A <-tcp-> forwarder A <== FrameStream / TCP ==> forwarder B <-tcp-> app B
+//
+// App A sends a request and half-closes (the HTTP request-response pattern the helper documents), app B answers after
+// the full request and closes.  Predicate: both byte strings arrive unchanged and complete, app A then sees
+// end-of-stream, and both forwarders return.
+func runFwd(c *caseIn, out *caseOut) {
+	req, resp := unhx(c.Req), unhx(c.Resp)
+	idStr := string(unhx(c.Reader))
+	id, err := crossnode.TunnelIDFromString(idStr)
+	hmust(err)
+	xa, xb := tcpPair()
+	appA, localA := tcpPairLinger(false)
+	localB, appB := tcpPairLinger(false)
+	fsA := crossnode.NewFrameStream(crossnode.NewConn(context.Background(), "B", xa, nil), id)
+	fsB := crossnode.NewFrameStream(crossnode.NewConn(context.Background(), "A", xb, nil), id)
+	fdone := make(chan string, 2)
+	go func() {
+		session.VerifRunBidirectionalForward(&session.BidirectionalForwardConfig{TunnelID: idStr, LogPrefix: "A", LocalConn: localA, RemoteConn: fsA})
+		fdone <- "A"
+	}()
+	go func() {
+		session.VerifRunBidirectionalForward(&session.BidirectionalForwardConfig{TunnelID: idStr, LogPrefix: "B", LocalConn: localB, RemoteConn: fsB})
+		fdone <- "B"
+	}()
+	chunked := func(w io.Writer, data []byte) {
+		i := 0
+		for len(data) > 0 {
+			k := len(data)
+			if i < len(c.Wsize) && c.Wsize[i] >= 1 && c.Wsize[i] < k {
+				k = c.Wsize[i]
+			}
+			i++
+			if _, err := w.Write(data[:k]); err != nil {
+				return
+			}
+			data = data[k:]
+		}
+	}
+	type res struct {
+		b   []byte
+		err error
+	}
+	bdone := make(chan res, 1)
+	go func() { // app B: read the whole request, answer, close
+		got := make([]byte, len(req))
+		_, err := io.ReadFull(appB, got)
+		chunked(appB, resp)
+		appB.CloseWrite()
+		bdone <- res{got, err}
+	}()
+	adone := make(chan res, 1)
+	go func() { // app A: request, half-close, read the answer to end-of-stream
+		chunked(appA, req)
+		appA.CloseWrite()
+		got, err := io.ReadAll(appA)
+		adone <- res{got, err}
+	}()
+	deadline := time.After(30 * time.Second)
+	var ra, rb res
+	okA, okB := false, false
+	fwd := 0
+	for !(okA && okB && fwd == 2) {
+		select {
+		case ra = <-adone:
+			okA = true
+		case rb = <-bdone:
+			okB = true
+		case <-fdone:
+			fwd++
+		case <-deadline:
+			out.fail("forwarder-hang", "request %d / response %d bytes: after 30 s app A done=%v, app B done=%v, forwarders returned=%d/2", len(req), len(resp), okA, okB, fwd)
+			okA, okB, fwd = true, true, 2
+		}
+	}
+	for _, cn := range []*net.TCPConn{xa, xb, appA, localA, localB, appB} {
+		cn.Close()
+	}
+	if out.PropOK {
+		if rb.err != nil || !bytes.Equal(rb.b, req) {
+			out.fail("forwarder-transparency", "request of %d bytes arrived at app B as %d bytes (err=%v, first difference at %d)", len(req), len(rb.b), rb.err, firstDiff(rb.b, req))
+		}
+		if ra.err != nil || !bytes.Equal(ra.b, resp) {
+			out.fail("forwarder-transparency", "response of %d bytes arrived at app A as %d bytes (err=%v, first difference at %d)", len(resp), len(ra.b), ra.err, firstDiff(ra.b, resp))
+		}
+	}
+	out.WireLen = len(req) + len(resp)
+}
+
 func firstDiff(a, b []byte) int {
 	n := len(a)
 	if len(b) < n {
@@ -819,6 +932,8 @@ func runCase(raw json.RawMessage) (res interface{}) {
 		runTid(&c, out)
 	case "conc":
 		runConc(&c, out)
+	case "fwd":
+		runFwd(&c, out)
 	default:
 		panic("bad mode " + c.Mode)
 	}
